@@ -201,7 +201,18 @@ def _warning_site(res, fn, rid, name, data_root):
         data_forms = {f"{data_root}.d", f"{data_root}.ndview", data_root, "self.d", "self.ndview"}
         size_forms = ("self.dtype.itemsize", f"{data_root}.dtype.itemsize", "max(2, self.dtype.itemsize)")
         mag = [f"LARGE_INPUT.get({sz}, 0) and np.any(np.abs({d}) > LARGE_INPUT.get({sz}, 0))" for d in data_forms for sz in size_forms]
-        ok = any(t in mag for t in tests) and any("self.dtype.kind in" in t for t in tests)
+        # both integer kinds: signed and unsigned
+        def _both_kinds(g):
+            for c_ in ast.walk(g.test):
+                if isinstance(c_, ast.Compare) and len(c_.ops) == 1 and isinstance(c_.ops[0], ast.In) and norm(c_.left).endswith(".dtype.kind") and isinstance(c_.comparators[0], (ast.Tuple, ast.List, ast.Set)):
+                    kinds = {e.value for e in c_.comparators[0].elts if isinstance(e, ast.Constant)}
+                    if {"u", "i"} <= kinds:
+                        return True
+                if isinstance(c_, ast.Compare) and len(c_.ops) == 1 and isinstance(c_.ops[0], ast.In) and norm(c_.left).endswith(".dtype.kind") and isinstance(c_.comparators[0], ast.Constant) and isinstance(c_.comparators[0].value, str) and {"u", "i"} <= set(c_.comparators[0].value):
+                    return True
+            return False
+
+        ok = any(t in mag for t in tests) and any(_both_kinds(g) for g in guards)
         ok = ok and any(isinstance(a_, ast.Name) and a_.id == "RuntimeWarning" for a_ in ast.walk(w[0]))
     res.check(ok, f"{name}:warning", fn.where(w[0]) if w else fn.where(), f"{name} must warn (RuntimeWarning) when the magnitude of integer data exceeds LARGE_INPUT for their item size", rid=rid)
 
@@ -219,6 +230,7 @@ MUTANTS = [
     Mutant("ufunc-int-operand", ARR, "unyt_array.__array_ufunc__", "inp1 = np.asarray(inp1, dtype=new_dtype) * conv", "inp1 = np.asarray(inp1) * conv", ("C17-R1", "C04-R2")),
     Mutant("out-promotion-removed", ARR, "unyt_array.__array_ufunc__", "                    np.copyto(out, float_values)\n", "", ("C17-R1",)),
     Mutant("threshold-off", ARR, None, "LARGE_INPUT = {4: 16777217, 8: 9007199254740993}", "LARGE_INPUT = {4: 16777217, 8: 9007199254740992}", ("C17-R2",)),
+    Mutant("warning-signed-only", ARR, "unyt_array.in_units", '            if self.dtype.kind in ("u", "i"):\n                large', '            if self.dtype.kind in ("i", "i"):\n                large', ("C17-R2",)),
     Mutant("warning-dropped", ARR, "unyt_array.in_units", "                if large and np.any(np.abs(self.d) > large):", "                if False:", ("C17-R2",)),
     Mutant("in-base-skips-unit-factor", ARR, "unyt_array.in_base", "ret = self.v * conv", "ret = self.v\n        if conv != 1:\n            ret = ret * conv", ("C17-R3",)),
     Mutant("factor-cast-to-data-dtype", UO, "_get_conversion_factor", "    ratio = old_basevalue / new_basevalue\n", "    ratio = old_basevalue / new_basevalue\n    if np.dtype(dtype).kind != \"i\":\n        ratio = np.dtype(dtype).type(ratio)\n", ("C17-R5",)),
